@@ -105,23 +105,27 @@ class LocationPath(BaseASTNode):
     def __findIntermediateNodes(self, old, new, queryIndirect):
         """Find nodes that are on on any path between 'old' and 'new'"""
 
-        visited = set()
         intermediate = set()
         if old.issuperset(new): return intermediate
 
-        def traverse(node, stack):
-            if node in visited: return
+        # Maps each visited node to whether a 'new' node is reachable from it.
+        reaching = {}
 
-            if node in new:
-                intermediate.update(stack)
-            else:
-                stack = stack + [node]
+        def traverse(node):
+            ret = reaching.get(node)
+            if ret is None:
+                ret = False
                 for i in node.values():
                     if queryIndirect or i.direct:
-                        traverse(i.node, stack)
-                visited.add(node)
+                        # Always descend. There might be further matches
+                        # below a matching node.
+                        if traverse(i.node) or (i.node in new):
+                            ret = True
+                reaching[node] = ret
+                if ret: intermediate.add(node)
+            return ret
 
-        for n in old: traverse(n, [])
+        for n in old: traverse(n)
 
         return intermediate
 
